@@ -6,7 +6,7 @@ import ast
 from ..cfg import CFG
 from ..consteval import ConstEval, EnumMember, Sym
 from ..core import AnalysisError, ClassInfo, own_nodes, parent, short, unparse
-from ..rules import lint
+from ..rules import match, lint
 from . import common
 
 EXPLANATION = (
@@ -209,37 +209,140 @@ def check_escaping(ctx):
         ctx.check(esc, "TAINT", f"{w.qualname}|{short(c, 70)}", ctx.where(w.module, c), "text passes through the escaping function",
                   f"`{short(c, 70)}` writes model text into the cue payload without escaping: '&' and '<' in the text become markup")
   ctx.floor("TAINT", "flows from Text.get_text() into the WebVTT payload", n, 1)
-  e = ix.func_opt("ttconv.vtt.style:escape_cue_text")
-  if e is not None:
-    t = unparse(e.node)
-    order_ok = t.find("'&', '&amp;'") != -1 and t.find("'&', '&amp;'") < t.find("'<', '&lt;'")
-    ctx.check(order_ok and "'<', '&lt;'" in t, "TAINT", f"{e.qualname}|& first, then <", ctx.where(e.module, e.node), "replaces & before <",
-              "escape_cue_text must replace '&' first and '<' next (otherwise entities are double-escaped or '<' stays)")
+  # the escaping function itself: resolved from the call sites, analysed as a replacement chain
+  escs = set()
+  for w in (f, ix.func("ttconv.vtt.writer:VttContext.process_p")):
+    for c in own_nodes(w.node):
+      if isinstance(c, ast.Call):
+        r = ix.resolve(w.module, c.func, cls=w.cls, func=w)
+        if getattr(r, "name", "") == "escape_cue_text":
+          escs.add(r)
+  for e in sorted(escs, key=lambda x: x.qualname):
+    ctx.unit(e.module)
+    ret = match.single_return(e.node)
+    ch = match.replace_chain(match.inline_single_locals(e.node, ret.value)) if ret is not None else None
+    if ch is None:
+      if ret is not None and unparse(ret.value).startswith(("html.escape(", "escape(")):
+        ctx.ok("TAINT", f"{e.qualname}|delegates to html.escape", ctx.where(e.module, ret), "html.escape replaces & < >")
+        continue
+      raise AnalysisError(f"{e.qualname}: the escaping function is not a chain of str.replace calls (idiom not recognised)")
+    base, pairs = ch
+    olds = [o for o, _ in pairs]
+    problems = []
+    if not (isinstance(base, ast.Name) and base.id == e.params[0]):
+      problems.append("the chain does not start from the text parameter")
+    for c_, ent in (("&", "&amp;"), ("<", "&lt;")):
+      if (c_, ent) not in pairs:
+        problems.append(f"{c_!r} is not replaced by {ent!r}")
+    for i, (o, nw) in enumerate(pairs):
+      for o2, _ in pairs[i + 1:]:
+        if o2 in nw:
+          problems.append(f"the replacement of {o2!r} runs after {o!r} -> {nw!r} and re-escapes its output")
+    for o, nw in pairs:
+      if (o, nw) not in (("&", "&amp;"), ("<", "&lt;"), (">", "&gt;")):
+        problems.append(f"unexpected replacement {o!r} -> {nw!r} changes cue text")
+    ctx.check(not problems, "TAINT", f"{e.qualname}|& then <, each once, nothing re-escaped", ctx.where(e.module, e.node), f"replacement chain {pairs}",
+              "escape_cue_text: " + "; ".join(problems))
+
+
+def _enumerate_call(it, seq_text):
+  """(start) when `it` is enumerate(<seq_text>[, start]) else None."""
+  if isinstance(it, ast.Call) and unparse(it.func) == "enumerate" and it.args and unparse(it.args[0]) == seq_text:
+    start = 0
+    if len(it.args) > 1 and isinstance(it.args[1], ast.Constant):
+      start = it.args[1].value
+    for kw in it.keywords:
+      if kw.arg == "start" and isinstance(kw.value, ast.Constant):
+        start = kw.value.value
+    return start
+  return None
+
+
+def _plus(e, name):
+  """k when e is `name + k` / `k + name` / `name` (k = 0)."""
+  if isinstance(e, ast.Name) and e.id == name:
+    return 0
+  if isinstance(e, ast.BinOp) and isinstance(e.op, ast.Add):
+    for x, y in ((e.left, e.right), (e.right, e.left)):
+      if isinstance(x, ast.Name) and x.id == name and isinstance(y, ast.Constant) and isinstance(y.value, int):
+        return y.value
+  return None
 
 
 def check_numbering_header(ctx):
   ix = ctx.ix
   s = ix.func("ttconv.srt.writer:SrtContext.__str__")
   ctx.unit(s.module)
-  t = unparse(s.node).replace(" ", "")
-  ctx.check("p.to_string(id+1)forid,pinenumerate(self._paragraphs)" in t, "SEQ-id", f"{s.qualname}|cue numbers 1..n in order", ctx.where(s.module, s.node), "to_string(id + 1) over enumerate",
-            "SRT cue numbers are no longer index + 1 over the paragraph list")
+  ret = match.single_return(s.node)
+  first = None
+  if ret is not None:
+    for g in ast.walk(ret.value):
+      if isinstance(g, (ast.GeneratorExp, ast.ListComp)) and len(g.generators) == 1 and not g.generators[0].ifs:
+        gen = g.generators[0]
+        start = _enumerate_call(gen.iter, "self._paragraphs")
+        if start is not None and isinstance(gen.target, ast.Tuple) and len(gen.target.elts) == 2 and all(isinstance(x, ast.Name) for x in gen.target.elts):
+          i, pv = gen.target.elts[0].id, gen.target.elts[1].id
+          c = g.elt
+          if isinstance(c, ast.Call) and unparse(c.func) == f"{pv}.to_string" and len(c.args) == 1:
+            k = _plus(c.args[0], i)
+            if k is not None:
+              first = start + k
+  if first is None and ret is not None:
+    raise AnalysisError(f"{s.qualname}: the cue-numbering idiom (to_string(<index>) over enumerate(self._paragraphs)) was not recognised")
+  ctx.check(first == 1, "SEQ-id", f"{s.qualname}|cue numbers 1..n in order", ctx.where(s.module, s.node), "to_string(index) over enumerate, first number 1",
+            f"SRT cue numbers start at {first} instead of 1")
   ts = ix.func("ttconv.srt.paragraph:SrtParagraph.to_string")
-  ctx.check("self._id if sub_number is None else sub_number" in unparse(ts.node), "SEQ-id", f"{ts.qualname}|prints the number it is given", ctx.where(ts.module, ts.node), "uses sub_number", "SrtParagraph.to_string ignores the cue number it is given")
+  ctx.unit(ts.module)
+  numparam = ts.params[1] if len(ts.params) > 1 else None
+  ret = match.single_return(ts.node)
+  uses = ret is not None and numparam is not None and any(isinstance(n, ast.Name) and n.id == numparam for n in ast.walk(match.inline_single_locals(ts.node, ret.value)))
+  ctx.check(bool(uses), "SEQ-id", f"{ts.qualname}|prints the number it is given", ctx.where(ts.module, ts.node), f"`{numparam}` reaches the returned string", "SrtParagraph.to_string ignores the cue number it is given")
   pp = ix.func("ttconv.vtt.writer:VttContext.process_p")
-  t = unparse(pp.node)
-  ctx.check("self._captions_counter += 1" in t and "self._captions_counter -= 1" in t and "self._paragraphs.pop()" in t, "SEQ-id", f"{pp.qualname}|counter restored when a blank cue is dropped",
-            ctx.where(pp.module, pp.node), "+= 1 on creation, -= 1 with pop()", "the WebVTT cue counter is not decremented when a blank cue is dropped: cue identifiers skip numbers")
+  ctx.unit(pp.module)
+  incs = [n for n in own_nodes(pp.node) if isinstance(n, ast.AugAssign) and isinstance(n.target, ast.Attribute) and isinstance(n.op, (ast.Add, ast.Sub)) and isinstance(n.value, ast.Constant) and n.value.value == 1]
+  counters = {unparse(n.target) for n in incs}
+  pops = [n for n in own_nodes(pp.node) if isinstance(n, ast.Call) and isinstance(n.func, ast.Attribute) and n.func.attr == "pop" and unparse(n.func.value) == "self._paragraphs"]
+  ok = len(counters) == 1 and sum(isinstance(n.op, ast.Add) for n in incs) == 1 and len(pops) == sum(isinstance(n.op, ast.Sub) for n in incs) and len(pops) >= 1
+  if ok:
+    # every pop shares its block with a decrement
+    from ..core import parent
+    for pcall in pops:
+      blk = parent(parent(pcall))
+      body = [b for fld in ("body", "orelse") for b in getattr(blk, fld, []) if isinstance(getattr(blk, fld, None), list)]
+      holder = next((getattr(blk, fld) for fld in ("body", "orelse") if isinstance(getattr(blk, fld, None), list) and any(parent(pcall) is x for x in getattr(blk, fld))), [])
+      ok = ok and any(isinstance(x, ast.AugAssign) and isinstance(x.op, ast.Sub) for x in holder)
+  ctx.check(ok, "SEQ-id", f"{pp.qualname}|counter restored when a blank cue is dropped",
+            ctx.where(pp.module, pp.node), "+= 1 on creation, -= 1 with every pop()", "the WebVTT cue counter is not decremented when a blank cue is dropped: cue identifiers skip numbers")
   vs = ix.func("ttconv.vtt.writer:VttContext.__str__")
-  rets = [r for r in own_nodes(vs.node) if isinstance(r, ast.Return)]
-  ok = len(rets) == 1 and unparse(rets[0].value).replace('"', "'").startswith("'WEBVTT\\n\\n' + self.style_block() + ")
+  ret = match.single_return(vs.node)
+  parts = []
+  if ret is not None:
+    def flat(e):
+      if isinstance(e, ast.BinOp) and isinstance(e.op, ast.Add):
+        flat(e.left)
+        flat(e.right)
+      else:
+        parts.append(e)
+    flat(match.inline_single_locals(vs.node, ret.value))
+  ok = len(parts) == 3 and isinstance(parts[0], ast.Constant) and parts[0].value == "WEBVTT\n\n" and unparse(parts[1]) == "self.style_block()" and "self._paragraphs" in unparse(parts[2])
   ctx.check(ok, "HDR", f"{vs.qualname}|WEBVTT, STYLE block, cues", ctx.where(vs.module, vs.node), "header first, then the style block, then the cues",
             "the WebVTT output no longer starts with 'WEBVTT\\n\\n' followed by the STYLE block and then the cues")
   for q in ("ttconv.srt.paragraph:SrtParagraph.to_string", "ttconv.vtt.cue:VttCue.to_string"):
     g = ix.func(q)
     ctx.unit(g.module)
-    ok = any(isinstance(n, ast.If) and "self._end.to_seconds() <= self._begin.to_seconds()" in unparse(n.test) and isinstance(n.body[-1], ast.Raise) for n in own_nodes(g.node))
-    ctx.check(ok, "GUARD", f"{q}|refuses begin >= end", ctx.where(g.module, g.node), "raises instead of printing an invalid cue", f"{g.short} no longer refuses a cue whose end is not after its begin")
+    ok = False
+    for n in own_nodes(g.node):
+      if isinstance(n, ast.If) and isinstance(n.body[-1], ast.Raise):
+        rel = match.relation(n.test, match.mentions("_end"), match.mentions("_begin"))
+        if rel == "<=" and isinstance(n.test, (ast.Compare, ast.UnaryOp)):
+          cmp_ = n.test
+          while isinstance(cmp_, ast.UnaryOp):
+            cmp_ = cmp_.operand
+          l, r = cmp_.left, cmp_.comparators[0]
+          le, re_ = (l, r) if match.mentions("_end")(l) else (r, l)
+          if match.accessor_shape(le, "_end") == match.accessor_shape(re_, "_begin"):
+            ok = True
+    ctx.check(ok, "GUARD", f"{q}|refuses begin >= end", ctx.where(g.module, g.node), "raises when end <= begin instead of printing an invalid cue", f"{g.short} no longer refuses a cue whose end is not after its begin")
 
 
 def run(ctx):
